@@ -195,3 +195,79 @@ def _gen_sbd(rng):
 size_by_dict.gen = _gen_sbd
 for _c in (legs_mid, legs_root, involved, size, flops):
     _c.pre_must_hold = True  # inputs are real trees built through the public API
+
+
+# ------------------------------------------------------------ compute_leaf_legs
+# C01: which indices an input tensor presents to the tree, and when a
+# single-tensor preprocessing step (diagonal / immediate sum) is registered:
+# both are functions of how often the index occurs on the tensor versus in the
+# whole contraction.
+LeafT = ObjT(
+    "ContractionTree",
+    {"inputs": Ty.List(Ty.List(Key)), "sliced_inds": Ty.Map(Key, Key), "appearances": LegsT, "preprocessing": Ty.Map(Ty.Int, Key)},
+)
+
+
+def _eq_of(engine, st, args, node, kw):
+    return V(Key, [engine.fresh(st, "preproc_eq", node, Ty.IntS)])
+
+
+CNT = "colcount(self.inputs[i], 0, {k}, len(self.inputs[i]))"
+leaf_legs = Contract(
+    target="cotengra.core:ContractionTree.compute_leaf_legs",
+    variant="unsliced",
+    props=["C01", "C03"],
+    self_type=LeafT,
+    params={"i": Ty.Int},
+    requires=[
+        "0 <= i and i < len(self.inputs)",
+        "keys(self.sliced_inds) == empty()",
+        "forall(0, len(self.inputs[i]), lambda p: self.inputs[i][p] in self.appearances)",
+    ],
+    returns=LegsT,
+    externals={"inputs_output_to_eq": _eq_of},
+    modifies=["self.preprocessing"],
+    nloops=1,
+    loops={
+        0: Loop(
+            pos="t",
+            inv=[
+                "forall(lambda k: get(legs, k, 0) == colcount(self.inputs[i], 0, k, t))",
+                "forall(lambda k: (k in legs) == (colcount(self.inputs[i], 0, k, t) >= 1))",
+            ],
+        )
+    },
+    hints={"legs": LegsT},
+    ensures=[
+        # an index is presented iff it occurs on the tensor and is not exhausted there
+        f"forall(lambda k: (k in result) == ({CNT.format(k='k')} >= 1 and {CNT.format(k='k')} != get(self.appearances, k, 0)))",
+        f"forall(keys(result), lambda k: result[k] == {CNT.format(k='k')})",
+        # an index exhausted on this tensor (summed immediately) always registers a preprocessing step
+        # (the other trigger, a repeated index, is tested by the code through len(term) != len(legs):
+        #  a counting argument left to the bounded drivers)
+        f"implies(exists(0, len(self.inputs[i]), lambda p: {CNT.format(k='self.inputs[i][p]')} == self.appearances[self.inputs[i][p]]), i in self.preprocessing)",
+        "implies(i in old(self.preprocessing), i in self.preprocessing)",
+        "forall(keys(self.preprocessing), lambda j: implies(j != i, j in old(self.preprocessing) and self.preprocessing[j] == old(self.preprocessing[j])))",
+    ],
+    assumptions=["unsliced tree (the sliced variant filters the term first; covered by the bounded drivers)", "inputs_output_to_eq returns some equation string"],
+)
+CONTRACTS.append(leaf_legs)
+
+
+def _gen_leaf(rng):
+    import cotengra as ctg
+
+    n = rng.randint(2, 5)
+    con = ctg.utils.rand_equation(n, 3, n_out=rng.randint(0, 2), n_hyper_in=rng.randint(0, 1), n_hyper_out=rng.randint(0, 1), seed=rng.randint(0, 10**6)) if n >= 3 else None
+    if con is None or rng.random() < 0.4:
+        inputs = [("a", "a", "b"), ("b", "c", "d"), ("d", "e")][: max(n, 2)]
+        output, sd = ("c",), {x: 2 for x in "abcde"}
+    else:
+        inputs, output, sd = con.inputs, con.output, con.size_dict
+    tree = ctg.ContractionTree(inputs, output, sd)
+    i = rng.randrange(tree.N)
+    return {"self": tree, "args": (i,), "universe": list(sd) + list(range(tree.N)), "describe": f"{inputs}->{output} leaf {i}"}
+
+
+leaf_legs.gen = _gen_leaf
+leaf_legs.pre_must_hold = True
